@@ -72,5 +72,18 @@ _p("C14", "explicit-state search over parse histories on one parser object, diff
    "option objects' public state to a fixpoint, which extends the statement to all finite sequences over the event alphabet",
    "DESIGN.md 6 C14")
 TEXT["C14"]["engine"] = "seqmc"
+_p("C13", "explicit-state search (depth-bounded enumeration + BFS to fixpoint) over declaration histories incl. moving the parser, vs reference map",
+   "model checking of the implementation: every history of <= d declaration events (declare 3 kinds x 2 names x parser|g1|g2, short_name "
+   "valid/invalid/changed, MOVE of the parser) and a BFS to a fixpoint over all reachable reference states; every step must agree with "
+   "the reference (new name ok, identical re-declaration returns the identical object, anything else parser_error) and at every state "
+   "probe parses of every spelling must resolve to exactly the declared item, or parse must refuse when a letter is shared",
+   "DESIGN.md 6 C13")
+TEXT["C13"]["engine"] = "seqmc"
+_p("C15", "bounded exhaustive enumeration of declarations x target streams; differential oracle across streams + structural parse-back",
+   "model checking of the implementation: ~27k declarations (single item over the full attribute product incl. 38..60-character words and a "
+   "45-character name; 2-3 items over groups, group creation orders and name permutations) x 7 target streams (fresh, prior content of "
+   "1/79/200 characters with and without line break, non-seekable); the text must not depend on the stream, list every item once in "
+   "group-creation / declaration order with spelling, placeholder, hint and default, keep every description word, and respect 80 columns",
+   "DESIGN.md 6 C15")
 
 NA = {}
